@@ -33,6 +33,7 @@ import (
 	"github.com/ethereum/go-ethereum/beacon/engine"
 	"github.com/ethereum/go-ethereum/common"
 	"github.com/ethereum/go-ethereum/common/hexutil"
+	"github.com/ethereum/go-ethereum/consensus/misc/eip4844"
 	"github.com/ethereum/go-ethereum/core"
 	"github.com/ethereum/go-ethereum/core/types"
 	"github.com/ethereum/go-ethereum/core/vm"
@@ -85,7 +86,12 @@ var (
 	c36FeeRcpt  = common.HexToAddress("0xfe00000000000000000000000000000000003608")
 	c36Forwarder = common.HexToAddress("0xf300000000000000000000000000000000003609")
 	c36Sink     = common.HexToAddress("0x5100000000000000000000000000000000003610")
+	c36EnvRec   = common.HexToAddress("0xe400000000000000000000000000000000003611") // stores every block-context field it can observe
+	c36SlotRec  = common.HexToAddress("0xe500000000000000000000000000000000003612") // stores SLOTNUM (Amsterdam)
 )
+
+// c36EnvOps: slot k of the environment recorder = value of op k; slot len(c36EnvOps) = BLOCKHASH(NUMBER-1).
+var c36EnvOps = []vm.OpCode{vm.NUMBER, vm.TIMESTAMP, vm.PREVRANDAO, vm.COINBASE, vm.GASLIMIT, vm.BASEFEE, vm.BLOBBASEFEE, vm.CHAINID}
 
 type c36Entry struct {
 	name       string
@@ -164,6 +170,13 @@ func c36NewWorld(t testing.TB, f c36Fork) *c36World {
 	alloc[c36Reverter] = types.Account{Code: revert, Nonce: 1, Balance: common.Big0}
 	alloc[c36Looper] = types.Account{Code: loop, Nonce: 1, Balance: common.Big0}
 	alloc[c36Adder] = types.Account{Code: adder, Nonce: 1, Balance: common.Big0}
+	envrec := program.New()
+	for k, op := range c36EnvOps {
+		envrec.Op(op).Push(k).Op(vm.SSTORE)
+	}
+	envrec.Push(1).Op(vm.NUMBER, vm.SUB, vm.BLOCKHASH).Push(len(c36EnvOps)).Op(vm.SSTORE, vm.STOP)
+	alloc[c36EnvRec] = types.Account{Code: envrec.Bytes(), Nonce: 1, Balance: common.Big0}
+	alloc[c36SlotRec] = types.Account{Code: program.New().Op(vm.SLOTNUM).Push(0).Op(vm.SSTORE, vm.STOP).Bytes(), Nonce: 1, Balance: common.Big0}
 	w.gspec = &core.Genesis{Config: f.cfg, Alloc: alloc, GasLimit: 30_000_000, BaseFee: big.NewInt(params.InitialBaseFee), Timestamp: 1_700_000_000, Difficulty: common.Big0}
 
 	chainID := f.cfg.ChainID
@@ -212,6 +225,9 @@ func c36NewWorld(t testing.TB, f c36Fork) *c36World {
 		{"DRAIN_V", dyn(12, 0, &vAddr, 0, 1_000_000, 7, nil), "always"},
 		{"V_TX", types.MustSignNewTx(vKey, w.signer, &types.DynamicFeeTx{ChainID: chainID, Nonce: 0, To: &c36Fresh, Value: big.NewInt(3), Gas: 100_000, GasFeeCap: gwei(10), GasTipCap: big.NewInt(5_500_000_000)}), "unless-prague:DRAIN_V"},
 		{"TAIL", dyn(13, 0, &w.addrs[1], 2, 1_000_000, 1, nil), "always"},
+		// environment recorders (one storage slot per block-context field)
+		{"ENVREC", types.MustSignNewTx(w.keys[4], w.signer, &types.DynamicFeeTx{ChainID: chainID, Nonce: 0, To: &c36EnvRec, Value: new(big.Int), Gas: 3_000_000, GasFeeCap: gwei(10), GasTipCap: big.NewInt(4_500_000_000)}), "always"},
+		{"SLOTREC", types.MustSignNewTx(w.keys[5], w.signer, &types.DynamicFeeTx{ChainID: chainID, Nonce: 0, To: &c36SlotRec, Value: new(big.Int), Gas: 1_000_000, GasFeeCap: gwei(10), GasTipCap: big.NewInt(3_500_000_000)}), "always"},
 	}
 	w.node, w.eth = startEthService(t, w.gspec, nil, func(c *ethconfig.Config) {
 		c.Miner = miner.Config{GasCeil: 30_000_000, GasPrice: big.NewInt(1), Recommit: time.Hour}
@@ -225,6 +241,8 @@ type c36Attrs struct {
 	withdrawals []*types.Withdrawal
 	beaconRoot  common.Hash
 	recipient   common.Address
+	slot        uint64  // slot number (Amsterdam), never zero
+	targetGas   *uint64 // target gas limit (Amsterdam)
 }
 
 func c36Subsets(n, maxSize int) [][]int {
@@ -247,7 +265,7 @@ func c36Subsets(n, maxSize int) [][]int {
 func TestVerif_C36_engine(t *testing.T) {
 	mc.Run(t, "C36", func(r *mc.R) {
 		maxSize := mc.Pick(r, 3, 4)
-		r.Rule("rule sets {cancun, prague, osaka, amsterdam} x 2 payload-attribute combinations x every subset of <= max_pool_size transactions of a 13-entry alphabet added to the real pools of a full eth service (quick: pools of the maximal size take one attribute combination each, round robin); " +
+		r.Rule("rule sets {cancun, prague, osaka, amsterdam} x 2 payload-attribute combinations x every subset of <= max_pool_size transactions of a 15-entry alphabet added to the real pools of a full eth service (quick: pools of the maximal size take one attribute combination each, round robin); " +
 			"ForkchoiceUpdated(head=genesis, attributes) -> full payload -> NewPayload of the fork's version; distinct = distinct payload block hashes")
 		r.Bound("max_pool_size", maxSize)
 		r.Assume("one eth.Ethereum service per rule set, head stays at genesis, prevRandao unique per case; the transaction pools are the real legacypool and blobpool (blob sidecars with valid KZG commitments/proofs)")
@@ -273,8 +291,8 @@ func TestVerif_C36_engine(t *testing.T) {
 					w := c36NewWorld(t, f)
 					defer w.node.Close()
 					attrs := []c36Attrs{
-						{"plain", []*types.Withdrawal{}, common.Hash{}, c36FeeRcpt},
-						{"withdrawals+root+recipient-is-sender", []*types.Withdrawal{{Index: 0, Validator: 3, Address: c36WdAddr, Amount: 7}, {Index: 1, Validator: 4, Address: w.addrs[0], Amount: 0}}, common.Hash{0xbe, 0xac}, w.addrs[2]},
+						{"plain", []*types.Withdrawal{}, common.Hash{}, c36FeeRcpt, 7, nil},
+						{"withdrawals+root+recipient-is-sender", []*types.Withdrawal{{Index: 0, Validator: 3, Address: c36WdAddr, Amount: 7}, {Index: 1, Validator: 4, Address: w.addrs[0], Amount: 0}}, common.Hash{0xbe, 0xac}, w.addrs[2], 1_000_003, c36U64(36_000_000)},
 					}
 					subsets := c36Subsets(len(w.entries), maxSize)
 					r.Bound("pools."+f.name, len(subsets))
@@ -358,7 +376,8 @@ func (w *c36World) check(r *mc.R, a c36Attrs, subset []int, names []string) erro
 		err  error
 	)
 	if w.fork.amsterdam {
-		attrs.SlotNumber = c36U64(1)
+		attrs.SlotNumber = c36U64(a.slot)
+		attrs.TargetGasLimit = a.targetGas
 		resp, err = w.api.ForkchoiceUpdatedV4(ctx, fc, attrs, nil)
 	} else {
 		resp, err = w.api.ForkchoiceUpdatedV3(ctx, fc, attrs)
@@ -453,6 +472,12 @@ func (w *c36World) check(r *mc.R, a c36Attrs, subset []int, names []string) erro
 		return fmt.Errorf("state %x of the accepted payload is not available", data.StateRoot)
 	}
 	r.DistinctHash(mc.Hash64(string(data.BlockHash.Bytes())))
+	if w.fork.amsterdam && (data.SlotNumber == nil || *data.SlotNumber != a.slot) {
+		return fmt.Errorf("payload slot number %v, requested %d", data.SlotNumber, a.slot)
+	}
+	if err := w.checkRecorders(stored); err != nil {
+		return err
+	}
 
 	// inclusion
 	seen := map[string]bool{}
@@ -505,6 +530,59 @@ func (w *c36World) check(r *mc.R, a c36Attrs, subset []int, names []string) erro
 	}
 	if len(vhashes) > 0 {
 		r.Outcome(fmt.Sprintf("VALID:with-%d-blobs", len(vhashes)))
+	}
+	return nil
+}
+
+// checkRecorders compares what the environment recorder transactions stored in
+// the accepted block's state with the block's header.
+func (w *c36World) checkRecorders(block *types.Block) error {
+	h := block.Header()
+	var envPos, slotPos = -1, -1
+	for i, tx := range block.Transactions() {
+		if tx.To() != nil && *tx.To() == c36EnvRec {
+			envPos = i
+		}
+		if tx.To() != nil && *tx.To() == c36SlotRec {
+			slotPos = i
+		}
+	}
+	if envPos < 0 && slotPos < 0 {
+		return nil
+	}
+	bc := w.eth.BlockChain()
+	st, err := bc.StateAt(h)
+	if err != nil {
+		return fmt.Errorf("state of the accepted block unavailable: %v", err)
+	}
+	receipts := bc.GetReceiptsByHash(block.Hash())
+	word := func(addr common.Address, k int) common.Hash { return st.GetState(addr, common.BigToHash(big.NewInt(int64(k)))) }
+	if envPos >= 0 {
+		if receipts[envPos].Status != types.ReceiptStatusSuccessful {
+			return fmt.Errorf("environment recorder failed")
+		}
+		want := []common.Hash{
+			common.BigToHash(h.Number), common.BigToHash(new(big.Int).SetUint64(h.Time)), h.MixDigest, common.BytesToHash(h.Coinbase[:]),
+			common.BigToHash(new(big.Int).SetUint64(h.GasLimit)), common.BigToHash(h.BaseFee), common.BigToHash(eip4844.CalcBlobFee(w.fork.cfg, h)),
+			common.BigToHash(w.fork.cfg.ChainID), h.ParentHash,
+		}
+		names := []string{"NUMBER", "TIMESTAMP", "PREVRANDAO", "COINBASE", "GASLIMIT", "BASEFEE", "BLOBBASEFEE", "CHAINID", "BLOCKHASH(N-1)"}
+		for k := range want {
+			if got := word(c36EnvRec, k); got != want[k] {
+				return fmt.Errorf("the recorder transaction observed %s = %x, the header implies %x", names[k], got, want[k])
+			}
+		}
+	}
+	if slotPos >= 0 {
+		ok := receipts[slotPos].Status == types.ReceiptStatusSuccessful
+		if ok != w.fork.amsterdam {
+			return fmt.Errorf("SLOTNUM recorder status %d on %s", receipts[slotPos].Status, w.fork.name)
+		}
+		if w.fork.amsterdam {
+			if got, want := word(c36SlotRec, 0), common.BigToHash(new(big.Int).SetUint64(*h.SlotNumber)); got != want {
+				return fmt.Errorf("the recorder transaction observed SLOTNUM = %x, the header has %x", got, want)
+			}
+		}
 	}
 	return nil
 }
